@@ -98,3 +98,72 @@ CHECKS.update({
         "note": "names are tokens without blanks or '|' so that the table can be parsed unambiguously",
     },
 })
+
+REFNOTE = ("trusts vp/ref.py (independent reference of the documented semantics, self-tested on every run against 21 designs with the maintainers' "
+           "expected counts); designs whose documented meaning is ambiguous are discarded and counted per reason; flat CrossBlock designs in this revision; ")
+CHECKS.update({
+    "C01": {
+        "technique": "Hypothesis design-spec generator; reference validity predicate applied to every model of the compiled formula (capped) and to everything IterateSATGen, CMSGen, UniGen, IterateGen/UniformGen return",
+        "text": ("Soundness of the formula-based samplers: for generated designs every projected model of build_cnf(block) (up to 400, thorough 4000), decoded like the samplers "
+                 "decode, and every sequence the five strategies return must satisfy the reference validity predicate (trial count, levels, derivations, crossing with weights, "
+                 "all constraint kinds). UniGen/UniformGen run in a forked child. Sampled designs; all models per design up to the cap."),
+        "note": REFNOTE + "open findings F09a, F12 excluded by shape",
+    },
+    "C02": {
+        "technique": "Hypothesis design-spec generator; multiset equality between exhausted IterateSATGen (formula models and the real iterate loop) and the reference enumeration",
+        "text": ("Completeness and exactness: for generated designs with few enough valid sequences the reference enumerates all valid sequences with multiplicities; the decoded "
+                 "projected models of the formula, and for small sets the real synthesize_trials(IterateSATGen, more than exist) result, must be the same multiset; unsatisfiable designs "
+                 "must give []. Sampled designs, exhaustive per design."),
+        "note": REFNOTE + "open findings F09a, F12 excluded by shape",
+    },
+    "C04": {
+        "technique": "Hypothesis design-spec generator; reference validity predicate on RandomGen output (and IterateGen/UniformGen when they delegate)",
+        "text": ("Every sequence RandomGen returns (12, thorough 20 per design) and the ones IterateGen/UniformGen return when they delegate to it must satisfy the reference "
+                 "validity predicate; classes track designs that need rejection and crossed within-trial derived factors. Sampled."),
+        "note": REFNOTE + "open findings F09a, F09b, F12 excluded by shape; default acceptable error 0",
+    },
+    "C06": {
+        "technique": "Hypothesis design-spec generator; multiset equality between exhausted RandomGen and the reference enumeration; reported solution_count vs reference count on single-round designs without rejection",
+        "text": ("RandomGen asked for 3 more sequences than exist must terminate and return exactly the reference multiset; for single-round designs without complex windows or "
+                 "rejection-enforced constraints metrics['solution_count'] must equal the number of valid sequences. A time-out is inconclusive. Sampled designs, exhaustive per design."),
+        "note": REFNOTE + "open findings F09a, F09b, F12 excluded by shape",
+    },
+    "C09": {
+        "technique": "Hypothesis design-spec generator with drawn request sizes; count and multiplicity oracle from the reference enumeration",
+        "text": ("For IterateSATGen, RandomGen and IterateGen and a requested count drawn from {1, n-1, n, n+3}: exactly min(requested, available) sequences, no printing more often than "
+                 "its reference multiplicity (copies of weighted levels outside the crossing), the full multiset when exhausting. Sampled."),
+        "note": REFNOTE + "open findings F09a, F09b, F12 excluded by shape",
+    },
+    "C15": {
+        "technique": "Hypothesis design-spec generator with planted table defects (overlap / gap / none) at drawn window inputs; constructor, error-report and per-trial derivation oracles",
+        "text": ("Derived factors are total lookup tables; one window input of one factor is made to match two levels (constructor must raise), no level (IterateSATGen and RandomGen must "
+                 "return [] and report the unmatched input) or left intact (every returned sequence carries at each applicable trial the level the table selects and '' elsewhere). Sampled."),
+        "note": "planted inputs are tuples of existing level names; None-padded inputs of early starts are excluded with finding F12; applicability from the documented start/stride rule",
+    },
+    "C16": {
+        "technique": "Hypothesis design-spec generator; documented trial-count arithmetic (reference) vs trials_per_sample(); length of every column returned by four strategies",
+        "text": ("block.trials_per_sample() must equal the documented arithmetic (weighted crossing size, exclusions/impossible combinations, preamble, MinimumTrials, maximum over "
+                 "crossings) and every sequence from IterateSATGen, RandomGen, CMSGen, UniGen must have that many entries for every factor. No known-finding exclusion is needed. Sampled."),
+        "note": REFNOTE + "SMGen lengths are judged under C29",
+    },
+    "C17": {
+        "technique": "Hypothesis design-spec generator; candidates = reference-valid sequences, seeded perturbations (cell change, swap, rotation, corrupted derived cell) and random well-formed sequences; verdict equivalence with the reference",
+        "text": ("sample_mismatch_experiment(block, seq) == {} must hold exactly when the reference validity predicate accepts seq, for valid sequences, systematically perturbed ones and "
+                 "random well-formed ones; an exception from the checker on a well-formed candidate is a violation. Sampled; both verdicts required for a case to count."),
+        "note": REFNOTE + "open findings F09a, F12 excluded by shape",
+    },
+    "C23": {
+        "technique": "Hypothesis design-spec generator biased to weights; metamorphic copy-expanded twin built through the public API (set equality for crossed, multiset equality for uncrossed weighted factors) plus reference multiset",
+        "text": ("Each weighted basic factor is rewritten into w separately named copies plus a within-trial factor reporting the original name; exhausted through the compiled formula, the "
+                 "projection of the twin must equal the weighted design as a set (crossed: and no multiplicities) or as a multiset (outside the crossing); the reference multiset is "
+                 "compared where unambiguous. Sampled designs, exhaustive per design."),
+        "note": "weights on derived levels and Sequential/LatinSquare over weighted factors are outside the property text / ambiguous and excluded; flat CrossBlock designs in this revision",
+    },
+    "C24": {
+        "technique": "Hypothesis generator of (law, left block tree); right side derived by the documented equivalence; differential comparison of acceptance, trial count and exhausted multisets",
+        "text": ("MultiCrossBlock vs Merge of CrossBlocks (all modes and alignments), Repeat vs Merge(REPEAT, EQUAL_PREAMBLE), Repeat(b, []) and Merge([b]) vs b, CrossBlock vs "
+                 "single-crossing MultiCrossBlock(WEIGHT): both sides accepted or both refused, equal trials_per_sample, equal multisets of sequences of the compiled formulas. "
+                 "No reference model. Sampled."),
+        "note": "crossings of one MultiCrossBlock are generated disjoint (Merge documents distinct crossing factors); Repeat constraints never contain Exclude",
+    },
+})
